@@ -1,4 +1,6 @@
 import BddVerif.Props.C05
+import BddVerif.Lemmas.AlgoEqLimit
+import BddVerif.Lemmas.AlgoEqDry
 #print axioms B.Props.C05.limit_spec
 #print axioms B.Props.C05.limit_spec_public
 #print axioms B.Props.C05.limit_some_iff
@@ -12,3 +14,12 @@ import BddVerif.Props.C05
 #print axioms B.Props.C05.implies_check
 #print axioms B.Props.C05.cmp_implies_spec
 #print axioms B.Props.C05.cmp_implies_vars
+#print axioms B.AlgoDL.apply_with_flip_and_limit_eq_model
+#print axioms B.AlgoDL.apply_with_flip_and_limit_spec
+#print axioms B.AlgoDL.apply_with_flip_and_limit_eq_model_driver
+#print axioms B.AlgoDL.Bdd_binary_op_with_limit_eq_model
+#print axioms B.AlgoDL.apply_with_flip_and_limit_panic_flip
+#print axioms B.AlgoDL.estimated_apply_complexity_eq_model
+#print axioms B.AlgoDL.estimated_apply_complexity_eq_model_driver
+#print axioms B.AlgoDL.Bdd_check_binary_op_eq_model
+#print axioms B.AlgoDL.estimated_apply_complexity_panic_flip
